@@ -172,7 +172,7 @@ func stracePlane(c *engine.Ctx, n int, fam string, rs uint64, fk string) {
 			c.Emit(stream, ev)
 			c.Obs("fault_runs:"+mode, 1)
 			c.Obs("strace:section:"+sect, 1)
-			if sect == "weights" {
+			if coversWeights(sect) {
 				c.NTDistinct(1)
 			}
 			if !ev.Fired {
